@@ -153,6 +153,12 @@ impl<CS: CLCiphersuite> PoKSignature<CL03<CS>> {
         let min_x = Integer::from(0);
         let max_x = Integer::from(2).pow(CS::lm) - 1;
         let CLSPoK = self.to_cl03_proof();
+        // one sub-proof and one range proof per hidden attribute, no more and no fewer
+        if CLSPoK.proofs_commited_mi.len() != unrevealed_message_indexes.len()
+            || CLSPoK.range_proofs_commited_mi.len() != unrevealed_message_indexes.len()
+        {
+            return false;
+        }
         let boolean_spok = NISPSignaturePoK::nisp5_MultiAttr_verify_proof::<CS>(
             &CLSPoK.spok,
             commitment_pk,
@@ -389,6 +395,13 @@ impl<CS: CLCiphersuite> ZKPoK<CL03<CS>> {
         CS::HashAlg: Digest,
     {
         let zkpok = self.to_cl03_zkpok();
+
+        // one sub-proof and one range proof per hidden attribute, no more and no fewer
+        if zkpok.proofs_commited_mi.len() != unrevealed_message_indexes.len()
+            || zkpok.range_proofs_mi.len() != unrevealed_message_indexes.len()
+        {
+            return false;
+        }
 
         let mut boolean_C_Ctrusted: bool = true;
         if let Some(C_trusted) = C_trusted {
